@@ -1150,6 +1150,15 @@ def draws_round(chk, drv, docs, n_draws, mechanism="draws"):
                     draw_cases(op, gc, 3, chk.seed * 100003 + i + 7, negative=True)
                 except Exception as e:  # noqa: BLE001 - negative generation is C02's concern; only its side effects matter here
                     chk.feature(f"{mechanism}:negative-prelude:{type(e).__name__}")
+            if history == "positive" and not doc.get("deep_chain") and (i % 4 == 1 or doc.get("settings_prelude")):
+                # yet another history: the same loaded operation first serves a request under OTHER generation settings (the
+                # permissive ones); the strategies it hands out afterwards must be built under the settings asked for
+                history = "other-generation-settings-then-positive"
+                try:
+                    draw_cases(op, GenerationConfig(allow_x00=True, codec="utf-8", with_security_parameters=gc.with_security_parameters),
+                               2, chk.seed * 100003 + i + 13)
+                except Exception as e:  # noqa: BLE001 - only the side effects on the caches matter
+                    chk.feature(f"{mechanism}:settings-prelude:{type(e).__name__}")
             explicit = explicit_prelude(rng, doc) if "gc" not in doc and history == "positive" and rng.random() < 0.3 else None
             if explicit is not None:
                 # another history: the operation first serves a request with an explicitly given parameter (examples do that;
@@ -1304,16 +1313,17 @@ def draws_round(chk, drv, docs, n_draws, mechanism="draws"):
                 except UnicodeEncodeError:
                     return True
 
+            after_other = ":strategy-built-under-the-settings-of-an-earlier-request" if history.startswith("other-generation") else ""
             if not gc.allow_x00:
                 if any("\x00" in t for t in gov + gov_hdr):
-                    chk.violation("C01:draw:NUL-character-although-allow_x00-is-off", "a generated string value contains \\x00", rep)
+                    chk.violation("C01:draw:NUL-character-although-allow_x00-is-off" + after_other, "a generated string value contains \\x00", rep)
                 elif any("\x00" in t for t in gov_bearer):
                     chk.violation(KF_FC01A, "the Authorization header generated for an http bearer security scheme contains \\x00", rep)
                 elif any("\x00" in t for t in allstr):
                     chk.violation(KF_F39, "a generated string outside any string-typed schema position contains \\x00", rep)
             if gc.codec:
                 if any(bad_codec(t) for t in gov):
-                    chk.violation("C01:draw:string-not-encodable-in-the-configured-codec",
+                    chk.violation("C01:draw:string-not-encodable-in-the-configured-codec" + after_other,
                                   f"a generated string value cannot be encoded as {gc.codec}", rep)
                 elif any(bad_codec(t) for t in gov_hdr + gov_bearer):
                     chk.violation(KF_F40, f"a generated header/cookie value cannot be encoded as {gc.codec}", rep)
@@ -1685,6 +1695,11 @@ DEEP_CHAIN_LEAVES_FC01C = [
 ]
 
 DRAW_WITNESSES = [
+    # FC01d: strict settings asked for after the same loaded operation served a request under permissive ones
+    {**_doc30([{"name": "q", "in": "query", "required": True, "schema": {"type": "string", "minLength": 1}},
+               {"name": "id", "in": "path", "required": True, "schema": {"type": "string", "minLength": 2, "maxLength": 6}}],
+              {"type": "object", "properties": {"s": {"type": "string", "minLength": 1}}, "required": ["s"], "additionalProperties": False}),
+     "gc": {"allow_x00": False, "codec": "ascii"}, "draws": 60, "settings_prelude": True},
     *[_deep_chain_doc(leaf) for leaf in DEEP_CHAIN_LEAVES],
     *[{**_deep_chain_doc(leaf, draws=20), "satisfiable": None, "deep_chain": KF_FC01C} for leaf in DEEP_CHAIN_LEAVES_FC01C],
     _doc30([{"name": "q", "in": "query", "required": True, "schema": W_F5}]),
